@@ -49,6 +49,7 @@ fn main() {
         "drive-tables" => tables::drive(rest),
         "drive-disasm" => disasm::drive(rest),
         "drive-cli" => cli::drive(rest),
+        "lib-result" => cli::lib_result_cmd(rest),
         "drive-lift" => lift::drive(rest),
         "drive-builder-extra" => bextra::drive(rest),
         "dump-disasm-names" => disasm::dump_names(rest),
